@@ -7,49 +7,54 @@ Open Scope N_scope.
 Definition left_out (f : finfo * gtype) (x : gv) : bool :=
   f_skip (fst f) || (f_omit (fst f) && is_empty (snd f) x).
 
+(* what is written for one field (Encoder.marshal, or the TagList case under the `list` option) *)
+Definition field_enc (f : finfo * gtype) (x : gv) : tres :=
+  if f_list (fst f) then enc_l (snd f) x else enc (snd f) x.
+Definition field_typed (f : finfo * gtype) (x : gv) : bool :=
+  if f_list (fst f) then has_type_l (snd f) x else has_type (snd f) x.
+Definition rtf_ok (f : finfo * gtype) : Prop := forall x tr,
+  field_typed f x = true -> field_enc f x = TOk tr ->
+  wfb tr = true /\ unm tr (snd f) = UOk (canon (snd f) x).
+
 (* what the field loop writes *)
 Inductive Encs : list (finfo * gtype) -> list gv -> list (list N * tag) -> Prop :=
 | E_nil : Encs [] [] []
 | E_out f fr x vr es : left_out f x = true -> Encs fr vr es -> Encs (f :: fr) (x :: vr) es
 | E_put f fr x vr es tr : left_out f x = false -> name_too_long (f_name (fst f)) = false ->
-    enc (snd f) x = TOk tr -> Encs fr vr es -> Encs (f :: fr) (x :: vr) ((f_name (fst f), tr) :: es).
+    field_enc f x = TOk tr ->
+    Encs fr vr es -> Encs (f :: fr) (x :: vr) ((f_name (fst f), tr) :: es).
 
-Lemma fields_enc_cons encf f fr x vr acc :
-  fields_enc encf (f :: fr) (x :: vr) acc =
-      if f_skip (fst f) then fields_enc encf fr vr acc
-      else if f_omit (fst f) && is_empty (snd f) x then fields_enc encf fr vr acc
+Lemma fields_enc_cons encf encl f fr x vr acc :
+  fields_enc encf encl (f :: fr) (x :: vr) acc =
+      if f_skip (fst f) then fields_enc encf encl fr vr acc
+      else if f_omit (fst f) && is_empty (snd f) x then fields_enc encf encl fr vr acc
       else if get_tag (snd f) x =? idEnd then TErr
       else if f_list (fst f) && negb ((get_tag (snd f) x =? idByteArray) || (get_tag (snd f) x =? idIntArray)
                                       || (get_tag (snd f) x =? idLongArray)) then TErr
       else if name_too_long (f_name (fst f)) then TErr
-      else tbind (encf (snd f) x) (fun tr =>
-             if f_list (fst f) then
-               match as_list tr with
-               | Some tl => fields_enc encf fr vr ((f_name (fst f), tl) :: acc)
-               | None => TErr
-               end
-             else fields_enc encf fr vr ((f_name (fst f), tr) :: acc)).
+      else tbind (if f_list (fst f) then encl (snd f) x else encf (snd f) x)
+                 (fun tr => fields_enc encf encl fr vr ((f_name (fst f), tr) :: acc)).
 Proof. reflexivity. Qed.
 
-Lemma fields_enc_spec : forall fs vs acc tr, (forall f, In f fs -> f_list (fst f) = false) ->
-  fields_enc (fun t x => enc t x) fs vs acc = TOk tr ->
+Lemma fields_enc_spec : forall fs vs acc tr,
+  fields_enc (fun t x => enc t x) (fun t x => enc_l t x) fs vs acc = TOk tr ->
   exists es, Encs fs vs es /\ tr = TCompound (rev acc ++ es).
 Proof.
-  induction fs as [|f fr IH]; intros vs acc tr Hl H; destruct vs as [|x vr]; try discriminate.
+  induction fs as [|f fr IH]; intros vs acc tr H; destruct vs as [|x vr]; try discriminate.
   - cbn in H. injection H as <-. exists []. split; [constructor|]. now rewrite rev_append_rev.
   - rewrite fields_enc_cons in H.
-    assert (Hl' : forall g, In g fr -> f_list (fst g) = false) by (intros; apply Hl; now right).
     destruct (f_skip (fst f)) eqn:Es.
-    { destruct (IH vr acc tr Hl' H) as (es & E1 & E2). exists es. split; auto.
+    { destruct (IH vr acc tr H) as (es & E1 & E2). exists es. split; auto.
       apply E_out; auto. unfold left_out. now rewrite Es. }
     destruct (f_omit (fst f) && is_empty (snd f) x) eqn:Eo.
-    { destruct (IH vr acc tr Hl' H) as (es & E1 & E2). exists es. split; auto.
+    { destruct (IH vr acc tr H) as (es & E1 & E2). exists es. split; auto.
       apply E_out; auto. unfold left_out. now rewrite Es, Eo. }
     destruct (get_tag (snd f) x =? idEnd); [discriminate|].
-    rewrite (Hl f (or_introl eq_refl)) in H. cbn [andb] in H.
+    destruct (f_list (fst f) && _) eqn:El; [discriminate|].
     destruct (name_too_long (f_name (fst f))) eqn:En; [discriminate|].
-    destruct (enc (snd f) x) as [t| |] eqn:Ee; cbn [tbind] in H; try discriminate.
-    destruct (IH vr _ tr Hl' H) as (es & E1 & E2). exists ((f_name (fst f), t) :: es). split.
+    change (if f_list (fst f) then enc_l (snd f) x else enc (snd f) x) with (field_enc f x) in H.
+    destruct (field_enc f x) as [t| |] eqn:Ee; cbn [tbind] in H; try discriminate.
+    destruct (IH vr _ tr H) as (es & E1 & E2). exists ((f_name (fst f), t) :: es). split.
     + apply E_put; auto. unfold left_out. now rewrite Es, Eo.
     + rewrite E2. cbn [rev]. now rewrite <- app_assoc.
 Qed.
@@ -111,7 +116,7 @@ Qed.
 (* a put field is found under its name; a left-out field in the table has no entry *)
 Lemma Encs_put fs vs es : Encs fs vs es -> names_ok fs = true ->
   forall f x, In (f, x) (combine fs vs) -> left_out f x = false ->
-  exists tr, enc (snd f) x = TOk tr /\ assoc (f_name (fst f)) es = Some tr /\ name_too_long (f_name (fst f)) = false.
+  exists tr, field_enc f x = TOk tr /\ assoc (f_name (fst f)) es = Some tr /\ name_too_long (f_name (fst f)) = false.
 Proof.
   induction 1 as [|g fr y vr es Ho HE IH|g fr y vr es tr Ho Hn He HE IH]; intros Hok f x Hin Hout.
   - destruct Hin.
@@ -146,7 +151,7 @@ Proof.
       apply (IH Hr f x); auto.
 Qed.
 Lemma Encs_in fs vs es : Encs fs vs es -> forall k tr, In (k, tr) es ->
-  exists f x, In (f, x) (combine fs vs) /\ left_out f x = false /\ k = f_name (fst f) /\ enc (snd f) x = TOk tr.
+  exists f x, In (f, x) (combine fs vs) /\ left_out f x = false /\ k = f_name (fst f) /\ field_enc f x = TOk tr.
 Proof.
   induction 1 as [|g fr y vr es Ho HE IH|g fr y vr es t Ho Hn He HE IH]; intros k tr Hin.
   - destruct Hin.
@@ -190,14 +195,16 @@ Proof.
     rewrite <- same_name_sym in Hdist by auto. unfold same_name in Hdist. rewrite E1, E2 in Hdist. discriminate.
 Qed.
 
-Lemma typed_in ht fs : forall vs f x, fields_typed ht fs vs = true -> In (f, x) (combine fs vs) -> ht (snd f) x = true.
+Lemma typed_in fs : forall vs f x,
+  fields_typed (fun t x => has_type t x) (fun t x => has_type_l t x) fs vs = true ->
+  In (f, x) (combine fs vs) -> field_typed f x = true.
 Proof.
   induction fs as [|g r IH]; intros vs f x Ht Hin; destruct vs as [|y vr]; try destruct Hin;
     cbn in Ht; apply andb_true_iff in Ht; destruct Ht as [H1 H2].
   - injection H as -> ->. exact H1.
   - eapply IH; eauto.
 Qed.
-Lemma typed_length ht fs : forall vs, fields_typed ht fs vs = true -> length fs = length vs.
+Lemma typed_length ht htl fs : forall vs, fields_typed ht htl fs vs = true -> length fs = length vs.
 Proof.
   induction fs as [|g r IH]; intros [|y vr] Ht; try discriminate; auto.
   cbn in Ht. apply andb_true_iff in Ht. cbn [length]. f_equal. apply IH, Ht.
@@ -246,12 +253,11 @@ Proof.
 Qed.
 
 (* ---------- structs ---------- *)
-Lemma rt_struct fs : Forall (fun f => rt_ok (snd f)) fs ->
-  names_ok fs = true -> (forall f, In f fs -> f_list (fst f) = false) -> rt_ok (YStruct fs).
+Lemma rt_struct fs : Forall rtf_ok fs -> names_ok fs = true -> rt_ok (YStruct fs).
 Proof.
-  intros IH Hok Hl v tr Ht He. destruct v as [| | | | | | |vs| | | |]; try discriminate.
+  intros IH Hok v tr Ht He. destruct v as [| | | | | | |vs| | | |]; try discriminate.
   cbn [has_type] in Ht. cbn [enc] in He.
-  destruct (fields_enc_spec fs vs [] tr Hl He) as (es & HE & ->). cbn [rev app].
+  destruct (fields_enc_spec fs vs [] tr He) as (es & HE & ->). cbn [rev app].
   rewrite unm_nonptr by reflexivity. rewrite Forall_forall in IH.
   (* every entry written *)
   assert (Hent : forall k t, In (k, t) es ->
@@ -260,7 +266,7 @@ Proof.
   { intros k t Hin. destruct (Encs_in _ _ _ HE k t Hin) as (f & x & Hfx & Ho & -> & Hen).
     pose proof (in_combine_l' _ _ _ _ Hfx) as Hf.
     unfold left_out in Ho. apply orb_false_iff in Ho. destruct Ho as [Hs Hom].
-    destruct (IH f Hf x t (typed_in _ _ _ _ _ Ht Hfx) Hen) as (W & T & U).
+    destruct (IH f Hf x t (typed_in _ _ _ _ Ht Hfx) Hen) as (W & U).
     destruct (Encs_put _ _ _ HE Hok f x Hfx) as (t' & _ & _ & Hnl); [unfold left_out; now rewrite Hs, Hom|].
     assert (Hab : all_bytesb (f_name (fst f)) = true).
     { clear -Hok Hf Hs. induction fs as [|g r IHr]; [destruct Hf|]. apply names_ok_cons in Hok.
